@@ -522,6 +522,47 @@ theorem C09_other_codec_is_copied (C : Compression) (minBlocks : Nat) (s : Sourc
   | true => rfl
   | false => exact absurd (mustCopy_false C minBlocks s hm).2.2 h
 
+/-- `StoreWriter::stack` (public API) on its own: after any documents already written, stacking a
+whole source store of the same codec appends exactly the source's documents — the writer's pending
+block is flushed first, doc and byte ranges of the copied checkpoints are shifted — and writing can
+continue afterwards. -/
+theorem C09_stack_appends (C : Compression) (hC : GoodCompression C) (K P bs : Nat) (hK : 1 ≤ K) (hP : 2 ≤ P)
+    (hbs : bs < 4294967296) (before after : List Bytes)
+    (hdocs : ∀ d ∈ before ++ after, d ≠ [] ∧ bs + d.length < 4294967296)
+    (src : StoreFile) (srcDocs : List Bytes) (hne : srcDocs ≠ []) (hsrc : Holds C P src srcDocs) :
+    let w0 := before.foldl (Writer.storeBytes C K) (Writer.new bs)
+    let w1 := w0.stack C src.data (checkpointsOf src.index)
+    let w2 := after.foldl (Writer.storeBytes C K) w1
+    let out : StoreFile :=
+      { data := (w2.sendBlock C).written, index := finishedLayers P (w2.sendBlock C).checkpoints,
+        decompId := C.id, version := Gen.DOC_STORE_VERSION }
+    Holds C P out (before ++ srcDocs ++ after) ∧ ∀ i, getBytes C out i = (before ++ srcDocs ++ after)[i]? := by
+  intro w0 w1 w2 out
+  obtain ⟨h0, b0⟩ := winv_fold C K hK before (Writer.new bs) []
+    (fun d hd => hdocs d (List.mem_append_left _ hd)) (winv_new C K bs)
+  simp only [List.nil_append] at h0
+  have hb0 : w0.blockSize = bs := b0
+  obtain ⟨h1, b1⟩ := winv_stack C K P hK hP w0 before (by rw [hb0]; exact hbs) h0 src srcDocs hne hsrc
+  have hb1 : w1.blockSize = bs := by show (w0.stack C src.data (checkpointsOf src.index)).blockSize = bs; rw [b1, hb0]
+  obtain ⟨h2, b2⟩ := winv_fold C K hK after w1 (before ++ srcDocs)
+    (fun d hd => by rw [hb1]; exact hdocs d (List.mem_append_right _ hd)) h1
+  have hb2 : w2.blockSize = bs := by show (after.foldl (Writer.storeBytes C K) w1).blockSize = bs; rw [b2, hb1]
+  obtain ⟨groups, hd, hl, hg, _⟩ := winv_flush C K hK w2 _ (by rw [hb2]; exact hbs) h2
+  have hh : Holds C P out (before ++ srcDocs ++ after) := ⟨groups, _, hd, hl, hg, rfl⟩
+  have hne' : before ++ srcDocs ++ after ≠ [] := by
+    cases srcDocs with
+    | nil => exact absurd rfl hne
+    | cons x xs => simp
+  exact ⟨hh, fun i => holds_get C hC.roundtrip P hP out _ hne' hh i⟩
+
+/-- "before and after merges", repeatedly: a merged store is again a legitimate source (it holds its
+documents, nothing is deleted in it yet), so every theorem above applies to the next merge -/
+theorem C09_merged_store_is_a_source (C : Compression) (hC : GoodCompression C) (P bs : Nat)
+    (merged : StoreFile) (live : List Bytes) (hne : live ≠ []) (hholds : Holds C P merged live)
+    (hdocs : ∀ d ∈ live, d ≠ [] ∧ bs + d.length < 4294967296) (own : Option (Nat → Bool)) :
+    SegOK C P bs (SourceSegment.ofReader merged C own none live.length) live :=
+  segOK_ofReader C P bs merged C own none live hholds hC.roundtrip hne hdocs (fun _ => rfl)
+
 /-- Stored fields stay aligned with doc ids across a merge: the live document `j` of the `k`-th source
 gets the new doc id `base + rank`, where `base` is the number of live documents of the sources
 before it and `rank` the number of live documents before `j` in its own segment (this is the id
@@ -837,5 +878,9 @@ example : utf8Valid [0xE6, 0x97, 0xA5, 0x41, 0xF0, 0x9F, 0x99, 0x82] = true := b
 example : utf8Valid [0xC0, 0x80] = false ∧ utf8Valid [0xED, 0xA0, 0x80] = false
     ∧ utf8Valid [0xF4, 0x90, 0x80, 0x80] = false ∧ utf8Valid [0xE6, 0x97] = false := by decide
 example : deserializeDocStrict (encStoredDoc [(0, .str [0xFF])]) = none := by decide +kernel
+
+/-- hypotheses of `C09_stack_appends`: one document before, a two-document source, one after -/
+example : Holds Compression.none 8 (writtenStore Compression.none 8 8 4 [[5], [6]]) [[5], [6]] :=
+  C09_written_holds Compression.none 8 8 4 (by decide) (by decide) _ (by decide)
 
 end TantivyModel.C09
